@@ -9,6 +9,9 @@
 (*              (the lanelet a merge returns is a lanelet: the driver follows each merge  *)
 (*              with distance / interpolate events on it, judged against its own vertices)*)
 (*  succ_routes / pred_routes   succ (successor lists by id), len, start, range, res      *)
+(*  mutate / inner_distance   steps of a history (crv/props/c20.py _exec_hist): accepted;  *)
+(*              the distance / interpolate events that follow carry the lanelet's CURRENT  *)
+(*              public vertices, so the expected values are those of the current polylines  *)
 (* st = "ok" | "timeout" | "exc:<Type>".                                                 *)
 EXTENDS LaneletGeom, IOUtils
 Traces == ndJsonDeserialize(IOEnv.TRACE_FILE)
@@ -70,6 +73,9 @@ Clause(e) ==
     [] e.op = "interpolate" -> InterpolateClause(e)
     [] e.op = "merge"       -> MergeClause(e)
     [] e.op \in {"succ_routes", "pred_routes"} -> RoutesClause2(e)
+    \* a mutation step of a history (its logged post-vertices are what the following queries are judged against) and
+    \* inner_distance (not named by the statement): recorded, never judged
+    [] e.op \in {"mutate", "inner_distance"} -> ""
     [] OTHER -> "machinery/unknown-op"
 
 TInit == tid \in 1..Len(Traces) /\ l = 1 /\ err = 0
